@@ -110,9 +110,9 @@ type Listener struct {
 	ln   net.Listener
 	Log  *evlog.Log
 	// Attempts counts TCP connections accepted (even if the handshake then fails).
-	Attempts    atomic.Int64
-	PlainFirst  atomic.Int64 // connections that started with a plaintext handshake
-	MSEFirst    atomic.Int64
+	Attempts   atomic.Int64
+	PlainFirst atomic.Int64 // connections that started with a plaintext handshake
+	MSEFirst   atomic.Int64
 }
 
 func Listen(name, ip string, log *evlog.Log) (*Listener, error) {
@@ -345,7 +345,7 @@ type SeederCfg struct {
 	ChokePause time.Duration
 	// LateServe: on a connection without the fast extension the block that triggers the choke is
 	// sent after the choke frame (it was 'already in the send buffer'), not before it
-	LateServe bool
+	LateServe   bool
 	AllowedFast []int
 	// ServeDelay before each block
 	ServeDelay time.Duration
@@ -353,6 +353,8 @@ type SeederCfg struct {
 	Metadata     []byte
 	MetadataSize int // value to advertise (0 => len(Metadata) if Metadata != nil)
 	ReqQ         int
+	// PEXAdd: addresses offered in a ut_pex message right after the remote's extended handshake
+	PEXAdd []*net.TCPAddr
 	// MetaLie scripts the ut_metadata answers: "" honest | wrong-total-size | short-piece | long-piece | dup |
 	// unrequested-index | garbage | reject | wrong-content | stall
 	MetaLie string
@@ -364,25 +366,25 @@ type SeederCfg struct {
 
 // SeederState is what the seeder observed; safe to read after Run returned or under Mu.
 type SeederState struct {
-	Mu            sync.Mutex
-	Requests      []refwire.Msg
-	Served        int
-	ServedBytes   int64
-	Interested    bool
-	Unchoked      bool
-	Outstanding   map[[3]uint32]bool
-	RemoteHave    map[int]bool
-	RemoteHaveAll bool
+	Mu             sync.Mutex
+	Requests       []refwire.Msg
+	Served         int
+	ServedBytes    int64
+	Interested     bool
+	Unchoked       bool
+	Outstanding    map[[3]uint32]bool
+	RemoteHave     map[int]bool
+	RemoteHaveAll  bool
 	RemoteBitfield []byte
-	GotHaveNone   bool
-	Cancels       int
-	Closed        bool
-	CloseErr      error
-	ExtHS         map[string]any
-	MetaRequests  []int
-	PEXMsgs       int
-	PortMsgs      int
-	AllowedFastRx []int
+	GotHaveNone    bool
+	Cancels        int
+	Closed         bool
+	CloseErr       error
+	ExtHS          map[string]any
+	MetaRequests   []int
+	PEXMsgs        int
+	PortMsgs       int
+	AllowedFastRx  []int
 }
 
 // RunSeeder drives the connection until it closes. It returns the observed state.
